@@ -766,7 +766,34 @@ def _enumeration(ctx, fn):
             if "[1:]" in t or "[:-1]" in t or "[:1]" in t or ", 3)" in t or "[0]" in t:
                 chk.violation("R16.e", f, loops[0], f"{name} enumerates `{its}` instead of `{exp}`: some pairs/members are left out", loc=f.loc(loops[0]))
             else:
-                raise AnalysisError(f"{name}: enumeration {its} not recognised (expected {exp})")
+                # a window: islice(xs, a, b) / xs[a:b] whose upper bound is not
+                # derived from the length of the list reaches only some partners
+                win = None
+                for lp in loops:
+                    for x in ast.walk(lp.iter):
+                        if isinstance(x, ast.Call) and (dotted(x.func) or "").endswith("islice") and len(x.args) >= 3:
+                            win = (lp, x.args[2])
+                        elif isinstance(x, ast.Subscript) and isinstance(x.slice, ast.Slice) and x.slice.upper is not None:
+                            win = (lp, x.slice.upper)
+                    # the iterable may be a local bound just before the loop
+                    if win is None and isinstance(lp.iter, ast.Name):
+                        for kind, value, _ in defs.of(lp.iter.id):
+                            for x in ast.walk(value):
+                                if isinstance(x, ast.Call) and (dotted(x.func) or "").endswith("islice") and len(x.args) >= 3:
+                                    win = (lp, x.args[2])
+                                elif isinstance(x, ast.Subscript) and isinstance(x.slice, ast.Slice) and x.slice.upper is not None:
+                                    win = (lp, x.slice.upper)
+                if win is not None and not ctx.flow.depends_on(
+                    f, win[1], lambda x: isinstance(x, ast.Call) and isinstance(x.func, ast.Name) and x.func.id == "len"
+                ):
+                    chk.violation(
+                        "R16.e", f, win[0],
+                        f"{name} pairs each member only with those inside a window ending at `{ast.unparse(win[1])}`, a bound that is "
+                        f"not the length of the list: pairs further apart get no edge (expected {exp})",
+                        loc=f.loc(win[0]),
+                    )
+                else:
+                    raise AnalysisError(f"{name}: enumeration {its} not recognised (expected {exp})")
     for name, tp, idattr, rng in (("add_machine_nodes", "MACHINE", "machine_id", "num_machines"), ("add_job_nodes", "JOB", "job_id", "num_jobs")):
         f = fn[name]
         fors = [n for n in own_nodes(f.node) if isinstance(n, ast.For)]
